@@ -205,6 +205,10 @@ func runC08(c *Ctx, r *Report, tier string) {
 
 	// DIAGNOSE
 	facts := c.newFacts(pa)
+	for _, in := range c.instrs(pa, c.dispatchPred()) {
+		_, ok := c.Requires(pa, isInstr(in), anyLit(litHas(false, litCmdsNonEmpty), litHas(true, litSubOptional)), facts)
+		r.Check(ok, "DIAGNOSE", c.fname(pa), "dispatch "+dispatchDesc(c, in)+" only when no subcommand is required", c.ipos(in), "REQ(no subcommands ∨ SubcommandsOptional): a missing required subcommand is diagnosed instead of running the command", "the command is run although it has required subcommands and none was given")
+	}
 	for _, in := range c.instrs(pa, c.isCallTo("(*parseState).estimateCommand")) {
 		c.reqRule(r, "DIAGNOSE", pa, in, "diagnosis only without an earlier error", litHas(false, litErrNonNil), "parseState.err == nil", facts)
 		c.reqRule(r, "DIAGNOSE", pa, in, "diagnosis only when the current command has subcommands", litHas(true, litCmdsNonEmpty), "len(s.command.commands) != 0", facts)
@@ -279,6 +283,27 @@ func (c *Ctx) ancestorFill(ml *ssa.Function) *ancFill {
 				}
 				if !strings.HasPrefix(recv, "idx(phi{append(phi↺, slice(new:[1]*Command") {
 					af.problems = append(af.problems, ancProblem{"fillLookup receiver", "lookup filled from " + trunc(recv, 100), in})
+				}
+				// every ancestor enters the chain: the append is guarded by nothing but `parent is a *Command`
+				for _, b2 := range ml.Blocks {
+					for _, in2 := range b2.Instrs {
+						ap, ok := in2.(*ssa.Call)
+						if !ok || c.calleeName(ap.Common()) != "append" || !strings.HasPrefix(c.term(ap), "append(phi{append(phi↺, slice(new:[1]*Command") {
+							continue
+						}
+						for _, d := range c.controlDeps(ml, b2) {
+							l, ok := c.edgeLit(d.B, d.Succ)
+							if !ok {
+								continue
+							}
+							switch {
+							case l.Pos && strings.HasPrefix(l.Term, "assert[*Command]("):
+							case l.Pos && strings.HasPrefix(l.Term, "nonnil(phi{"):
+							default:
+								af.problems = append(af.problems, ancProblem{"every ancestor is collected", "an ancestor enters the chain only under the additional condition " + trunc(l.String(), 100) + ": the walk stops there and outer options are lost", in2})
+							}
+						}
+					}
 				}
 				af.orderOK = strings.HasPrefix(idx, "phi{(len(phi{append(") && strings.HasSuffix(idx, " - 1) | (phi↺ - 1)}")
 				if af.orderOK {
